@@ -1429,6 +1429,99 @@ def _mutate(obj, how, rng_val):
     return None
 
 
+def state_paths(prefix='a5', max_items=400, max_paths=60000):
+    """{path: short hash of the value} for every scalar leaf (and every container length) reachable from the
+    globals of the a5 modules, by the same generic walk as state_fingerprint().  Two walks, before and after a
+    solo call, give the call's *write set*; two calls that write the same path are a candidate pair for an
+    exhaustive sweep (c16.gen_conflict_sweep).  Used to choose workloads only, never as an oracle."""
+    import types
+    out = {}
+    seen = set()
+    skip = (types.ModuleType, types.FunctionType, types.BuiltinFunctionType, type, types.MethodType)
+
+    def leaf(v):
+        if isinstance(v, float):
+            return v.hex()
+        return repr(v)[:80]
+
+    def walk(v, path, depth):
+        if len(out) >= max_paths or depth > 8:
+            return
+        if isinstance(v, (int, str, bool, bytes, float)) or v is None:
+            out[path] = leaf(v)
+            return
+        if isinstance(v, skip):
+            return
+        i = id(v)
+        if i in seen:
+            out[path] = '@shared'
+            return
+        seen.add(i)
+        if isinstance(v, (list, tuple)):
+            out[path + '#len'] = str(len(v))
+            for n, x in enumerate(v[:max_items]):
+                walk(x, '%s[%d]' % (path, n), depth + 1)
+        elif isinstance(v, dict):
+            out[path + '#len'] = str(len(v))
+            for k in sorted(v, key=repr)[:max_items]:
+                rk = repr(k)
+                if len(rk) > 40:
+                    rk = rk[:24] + '~' + hashlib.blake2b(rk.encode(), digest_size=5).hexdigest()
+                walk(v[k], '%s{%s}' % (path, rk.replace('{', '(').replace('}', ')')), depth + 1)
+        elif isinstance(v, (set, frozenset)):
+            out[path + '#set'] = hashlib.blake2b(repr(sorted(v, key=repr)).encode(), digest_size=6).hexdigest()
+        else:
+            try:
+                d = object.__getattribute__(v, '__dict__')
+            except Exception:
+                d = None
+            if isinstance(d, dict):
+                out[path + '#type'] = type(v).__name__
+                for k in sorted(d, key=repr)[:max_items]:
+                    walk(d[k], '%s.%s' % (path, k), depth + 1)
+            else:
+                slots = []
+                for c in type(v).__mro__:
+                    slots.extend(getattr(c, '__slots__', ()) if isinstance(getattr(c, '__slots__', ()), (tuple, list)) else ())
+                if slots:
+                    for k in slots[:max_items]:
+                        try:
+                            walk(object.__getattribute__(v, k), '%s.%s' % (path, k), depth + 1)
+                        except Exception:
+                            pass
+                else:
+                    out[path + '#type'] = type(v).__name__
+
+    for name in sorted(sys.modules):
+        if name == prefix or name.startswith(prefix + '.'):
+            m = sys.modules[name]
+            if m is None:
+                continue
+            for g in sorted(vars(m)):
+                if g.startswith('__'):
+                    continue
+                walk(vars(m)[g], '%s:%s' % (name, g), 0)
+    return out
+
+
+def write_set(a5mod, call, limit=6000):
+    """Paths of library state that a solo, cold execution of `call` leaves changed (path -> hash of new value)."""
+    before = state_paths()
+    args = [canon.dec(a) for a in call['a']]
+    try:
+        apply_call(a5mod, call['f'], args)
+    except BaseException:
+        pass
+    after = state_paths()
+    diff = {}
+    for k, v in after.items():
+        if before.get(k) != v:
+            diff[k] = v
+            if len(diff) >= limit:
+                break
+    return diff
+
+
 def state_fingerprint(prefix='a5'):
     """Hash of a generic walk over every mutable object reachable from the
     globals of the a5 modules.  Coverage only, never an oracle."""
